@@ -12,7 +12,28 @@ TU = "src/hgraph/runtime/feedback_node.cpp"
 I_ = z3.IntSort()
 
 
-class InputSlot(Obj):
+class OpaqueValue(Obj):
+    """a value view read for observation only: comparisons are arbitrary booleans"""
+    cls = "ValueView"
+
+    def m_equals(self, I, args, n):
+        return I.ctx.fresh("values_equal", "bool")
+
+
+class Observers:
+    """const observers of time-series state the contracts do not track: arbitrary results, no effects"""
+
+    def m_valid(self, I, args, n):
+        return I.ctx.fresh("ts_valid", "bool")
+
+    def m_modified(self, I, args, n):
+        return I.ctx.fresh("ts_modified", "bool")
+
+    def m_value(self, I, args, n):
+        return OpaqueValue(name="value")
+
+
+class InputSlot(Observers, Obj):
     cls = "TSInputView"
 
     def __init__(self, k, slot):
@@ -34,7 +55,7 @@ class Delta(Obj):
         self.how, self.slot = how, slot
 
 
-class BoundOut(Obj):
+class BoundOut(Observers, Obj):
     cls = "TSOutputView"
 
     def __init__(self, k, slot):
